@@ -95,6 +95,23 @@ pub fn corrupt(rng: &mut Rng, b: &mut Vec<u8>) -> &'static str {
             wr32(b, 76 + 4 * i, v);
             "header-difat-slot"
         }
+        2 if rng.chance(1, 2) => {
+            // double pointee: some sector y is made to point where sector x already points
+            // (x is sector 0 or the last sector a third of the time: the extremes of every table)
+            let per = l.s / 4;
+            let cell = |id: usize| l.fat_sectors.get(id / per).map(|fs| (fs + 1) * l.s + 4 * (id % per));
+            if l.nsec >= 2 {
+                let x = match rng.below(6) { 0 | 1 => 0, 2 => l.nsec - 1, _ => rng.below(l.nsec as u64) as usize };
+                let y = rng.below(l.nsec as u64) as usize;
+                if let (Some(cx), Some(cy)) = (cell(x), cell(y)) {
+                    let succ = rd32(b, cx);
+                    if x != y && succ < 0xffff_fffa {
+                        wr32(b, cy, succ);
+                    }
+                }
+            }
+            "fat-double-pointee"
+        }
         2 | 3 | 4 => {
             // a FAT cell
             if let Some(&fs) = l.fat_sectors.get(rng.below(l.fat_sectors.len().max(1) as u64) as usize) {
